@@ -162,7 +162,7 @@ PROPS = {
         assumptions=["operations on disjoint paths are independent (kernel file system)", "CPython audit events cover every mutation bio2zarr/zarr perform (open, mkdir, rename, remove, rmdir)"],
     ),
     "C05": dict(
-        units=[],
+        units=["GenIcfProtocol"],
         props_files=["Props/C05.v"],
         driver="c05",
         rule="a 12-record, 3-partition generated input; every command as its own OS process; kill before the k-th file-system "
@@ -177,7 +177,7 @@ PROPS = {
                      "a Torn metadata.json / summary / chunk does not load (json, pickle, Blosc)"],
     ),
     "C06": dict(
-        units=[],
+        units=["GenVczProtocol"],
         props_files=["Props/C06.v"],
         driver="c06",
         rule="a 12-record input encoded in 3 partitions; every command as its own OS process; kill before the k-th mutation "
@@ -220,7 +220,7 @@ PROPS = {
         assumptions=["Blosc compression is deterministic", "cyvcf2 haploid phasing bit (F8) is a don't-care for values, a known finding for bytes"],
     ),
     "C02": dict(
-        units=[],
+        units=["GenVczProtocol"],
         props_files=["Props/C02.v"],
         driver="c02",
         rule="generated inputs biased toward Number=R/A/G fields absent or short on the widest records x variants/samples chunk "
